@@ -1500,6 +1500,25 @@ fn inventory(file: &syn::File, src: &Src, it: &Item) -> ItemOut {
             syn::visit::visit_item_fn(self, f);
             self.cur.pop();
         }
+        fn visit_expr_if(&mut self, i: &'ast syn::ExprIf) {
+            // `if c { A } else { B }` (no `if let`, no `else if`): spans for the branch-swap probe
+            if let Some((_, els)) = &i.else_branch {
+                if matches!(&**els, syn::Expr::Block(_)) && !matches!(&*i.cond, syn::Expr::Let(_)) && !self.cur.is_empty() {
+                    let (cs, ce) = self.src.range(i.cond.span());
+                    let (ts, te) = self.src.range(i.then_branch.span());
+                    let (es, ee) = self.src.range(els.span());
+                    let mut row = BTreeMap::new();
+                    row.insert("kind".to_string(), "ifelse".to_string());
+                    row.insert("fn".to_string(), self.cur.join("::"));
+                    row.insert("line".to_string(), self.src.line_of(cs).to_string());
+                    row.insert("cond".to_string(), format!("{cs}:{ce}"));
+                    row.insert("then".to_string(), format!("{ts}:{te}"));
+                    row.insert("else".to_string(), format!("{es}:{ee}"));
+                    self.rows.push(row);
+                }
+            }
+            syn::visit::visit_expr_if(self, i);
+        }
         fn visit_expr_binary(&mut self, b: &'ast syn::ExprBinary) {
             // multiplication / addition sites with two non-literal operands (used by tools/commute_probe.py)
             let kind = match b.op {
